@@ -177,7 +177,7 @@ def r2_nodes_edges(R) -> None:
     lhs_name = [k for k, v in sides.items() if v[0] == left]
     rhs_name = [k for k, v in sides.items() if v[0] == right]
     if not (lhs_name and rhs_name):
-        R.violation(Q, 'sides', f'term lists are not built from both halves of the split: {sides}', where=f.fi.where)
+        R.check(False, Q, 'sides', '', f'term lists are not built from both halves of the split: {sides}', where=f.fi.where)
         return
     ln, rn = lhs_name[0], rhs_name[0]
     for k in (ln, rn):
